@@ -13,7 +13,7 @@ var objectNames = []string{"Alpha", "Beta", "Gamma", "Delta", "Epsilon"}
 var ifaceNames = []string{"Node", "Named", "Shape"}
 var unionNames = []string{"Thing", "Either"}
 var enumNames = []string{"Color", "Mode", "unit_kind"}
-var enumValuePool = []string{"RED", "DARK_BLUE", "light_green", "MiXed", "X1", "A_1", "a_b_c", "ON", "OFF", "VERY_LONG_VALUE_NAME", "x", "Z9_z", "TRAILING_", "DOUBLE__UNDER"}
+var enumValuePool = []string{"red", "_", "ON_", "RED", "DARK_BLUE", "light_green", "MiXed", "X1", "A_1", "a_b_c", "ON", "OFF", "VERY_LONG_VALUE_NAME", "x", "Z9_z", "TRAILING_", "DOUBLE__UNDER"}
 var fieldNamePool = []string{"id", "name", "age", "score", "ok", "tags", "matrix", "kind", "color", "next", "items", "owner", "peer", "value", "ratio", "note", "x1", "fooBar", "snake_case", "URL", "Zed", "iD2", "q"}
 
 // camel mirrors the generator's constant naming only to keep *generated schemas* free of colliding
@@ -68,14 +68,7 @@ func genSchema(r *hx.Rand) SchemaSpec {
 	objs := pickN(r, objectNames, nObj)
 	uns := pickN(r, unionNames, nUnion)
 	for _, e := range enums {
-		var vals []string
-		seen := map[string]bool{}
-		for _, v := range pickN(r, enumValuePool, r.Range(1, 5)) {
-			if c := camel(v); !seen[c] && c != "" {
-				seen[c] = true
-				vals = append(vals, v)
-			}
-		}
+		vals := pickN(r, enumValuePool, r.Range(1, 5))
 		s.Types = append(s.Types, TypeSpec{Kind: "enum", Name: e, Values: vals})
 	}
 	composite := append(append(append([]string{}, objs...), ifs...), uns...)
@@ -771,7 +764,7 @@ func genCase(r *hx.Rand, idx int) Case {
 				if alt == v {
 					alt = strings.ToUpper(v)
 				}
-				if alt != v {
+				if alt != v && !contains(c.Schema.Types[ti].Values, alt) {
 					c.Schema.Types[ti].Values = append(c.Schema.Types[ti].Values, alt)
 					c.Label = "enum-const-collision"
 				}
